@@ -212,6 +212,15 @@ claim("C07", "exploration", "TLC enumeration of the legal lexical layouts (WaLay
       "Role G: level exploration. A layout the model calls legal that the parser rejects makes the run inconclusive (exit 2). Open known findings: unsorted import groups compile to a "
       "different module after formatting; a line-ending comment inside `[ ]` of a slice type needs two passes.",
       "DESIGN.md section 4 (language kernel)")
+claim("C08", "exploration", "TLC enumeration of token strings over the four front ends' alphabets and of the dispatch table (WaFront.tla) + in-process execution of every entry point with recovered panics, watchdog and process-exit detection",
+      "WaFront.tla gives each surface language (Wa, Wz, WAT, native assembly) an alphabet of 35-54 tokens (keywords, brackets, identifier, literals including unterminated strings/chars "
+      "and malformed numbers, every comment style, illegal bytes) and enumerates all token strings of length <= 2 (quick) / <= 3 (thorough); each is rendered spaced, tight, repeated "
+      "12 times (the parsers bail out after 10 errors) and inside well-formed frames (function body, global initialiser, WAT module/function, text section) and fed to api.FormatCode, "
+      "api.GetCodeSyntax, parser.ParseFile, api.BuildFile (type checking when the text parses), the WAT parser and the assembly parser under the file name of its language. A panic, a "
+      "call that does not return (10 s watchdog; 60 s for BuildFile) or a process exit is a violation. The second part is the dispatch table: extension class x content class -> "
+      "language and admissible formatting outcome (never a panic).",
+      "Role G: level exploration; arbitrary byte strings beyond the token alphabets are not reached. Timing is only used as a non-termination watchdog.",
+      "DESIGN.md section 4 (C08)")
 claim("C09", "exploration", "TLC-generated kernel cases rendered in both surface syntaxes by independent tables and run: identity of outputs (and equality with the specification)",
       "Every WaInt case (run-time form through functions with typed parameters, and constant form) for u16, int, uintptr, byte, rune (quick) / all integer type names (thorough) is rendered "
       "as a .wa and as a .wz program - type names, func/return, println, main from tables written from token/const_wz.go - and both are compiled and run; outputs must be equal "
